@@ -89,8 +89,13 @@ def main() -> int:
     for e in entries:
         if a.only and e["prop"] != a.only:
             continue
-        rc, _ = one(e["prop"], e["file"], e["old"], e["new"], a.tier, a.scale, a.suite, e.get("name", ""))
+        try:
+            rc, _ = one(e["prop"], e["file"], e["old"], e["new"], a.tier, a.scale, a.suite, e.get("name", ""))
+        except SystemExit as ex:
+            print("%-6s %-40s SKIPPED: %s" % (e["prop"], e.get("name", ""), str(ex)[:100]))
+            continue
         missed += rc != 1
+        sys.stdout.flush()
     print("missed: %d" % missed)
     return 0
 
